@@ -7,19 +7,21 @@ H8 == <<<<1, 1, 1>>, <<1, 1, -1>>, <<1, -1, 1>>, <<1, -1, -1>>, <<-1, 1, 1>>, <<
 Scaled(H, w) == [i \in 1..Len(H) |-> [j \in 1..3 |-> w[j] * H[i][j]]]
 Designs == {[A |-> Scaled(H, w), sizes |-> sz, J |-> 3] : H \in {H4, H8}, w \in {<<3, 2, 1>>, <<1, 2, 2>>, <<2, 3, 1>>}, sz \in {<<4, 3, 2>>, <<2, 6, 3>>, <<5, 5, 1>>}}
 Cases == [design : {d \in Designs : Distinct(d.A, d.sizes, d.J)}, box : {<<3, 3, 3>>, <<2, 4, 5>>, <<9, 9, 9>>}, ncomp : {2, 3},
-          mask : BOOLEAN, rowchunks : {"one", "each", "uneven"}, voxchunk : BOOLEAN]
-Init == cfg \in {c \in Cases : c.ncomp <= c.design.J} /\ done = FALSE
+          mask : BOOLEAN, soft : BOOLEAN, rowchunks : {"one", "each", "uneven"}, voxchunk : BOOLEAN]
+Init == cfg \in {c \in Cases : c.ncomp <= c.design.J /\ (c.soft => c.mask) /\ DistinctW(c.design.A, c.design.sizes, c.soft, c.design.J)} /\ done = FALSE
 Next == ~done /\ done' = TRUE /\ UNCHANGED cfg
 Spec == Init /\ [][Next]_<<cfg, done>>
-Laws == LET d == cfg.design IN ZeroMean(d.A, d.J) /\ Orthogonal(d.A, d.J) /\ Distinct(d.A, d.sizes, d.J)
+Laws == LET d == cfg.design IN ZeroMean(d.A, d.J) /\ Orthogonal(d.A, d.J) /\ Distinct(d.A, d.sizes, d.J) /\ DistinctW(d.A, d.sizes, cfg.soft, d.J)
+                                /\ (~cfg.soft => \A j \in 1..d.J : Sigma2x4(d.A, d.sizes, FALSE, j) = 4 * Sigma2(d.A, d.sizes, j))
 (* the result does not depend on the row partition: the expectation below never mentions it; what TLC
    enumerates here is that every partition of the rows is a legal chunking *)
 AllPartitionsLegal == \A c \in Compositions(Len(cfg.design.A)) : ISum(1..Len(c), LAMBDA i : c[i]) = Len(cfg.design.A)
 RowChunks(c) == LET n == Len(c.design.A) IN
    CASE c.rowchunks = "one" -> <<n>> [] c.rowchunks = "each" -> [i \in 1..n |-> 1] [] OTHER -> IF n = 4 THEN <<1, 3>> ELSE <<3, 1, 4>>
 Emit == done => LET d == cfg.design IN PrintT(ToJson([cfg |-> cfg, rowchunks |-> RowChunks(cfg),
-   sigma2 |-> [j \in 1..d.J |-> Sigma2(d.A, d.sizes, j)],
-   rank |-> [j \in 1..d.J |-> Rank(d.A, d.sizes, d.J, j)],
-   proj2 |-> [i \in 1..Len(d.A) |-> [j \in 1..d.J |-> d.A[i][j] * d.A[i][j] * d.sizes[j]]],
+   sigma2x4 |-> [j \in 1..d.J |-> Sigma2x4(d.A, d.sizes, cfg.soft, j)],
+   rank |-> [j \in 1..d.J |-> RankW(d.A, d.sizes, cfg.soft, d.J, j)],
+   w4 |-> [j \in 1..d.J |-> W4(d.sizes, cfg.soft, j)],
+   proj2x4 |-> [i \in 1..Len(d.A) |-> [j \in 1..d.J |-> d.A[i][j] * d.A[i][j] * W4(d.sizes, cfg.soft, j)]],
    ncompositions |-> Cardinality(Compositions(Len(d.A)))]))
 =============================================================================
